@@ -8,11 +8,20 @@ import GT.Props.C01
 indices).  The theorems say that the product operations are *natural* in the batch index: the
 component `n` of the result is computed from the components selected for `n` and nothing else,
 following the documented layout `i*R2+j`.
+
+Contents: `C12_factor_slice`, `C12_measure_slice`, `C12_pdf_slice`, `C12_cond_slice` (what `slice`
+returns); `productSel_reindex_out/in` and the corollaries `C12_multiply_slice`, `C12_hadamard*_slice`,
+`C12_multiply_take`; naturality of the cache-filling steps and of the density constructor
+(`mkPdf_reindex`); `C12_condition_on_x`, `C12_affine_marginal/joint/conditional` (layout
+`r*N+n`, `k ↦ (k / Rx, k % Rx)`), `C12_set_y_*`; `C12_log_integral`, `C12_integral`,
+`C12_get_density`, `C12_get_marginal`, `C12_entropy`, `C12_kl`, `C12_linear_sum`.
+None of the statements has a hypothesis on the backend: the external primitives are applied
+component by component.
 -/
 namespace GT.Props.C12
 open GT
 
-variable {R R1 R2 Ro N N1 N2 D : Nat}
+variable {R R1 R2 Ro N N1 N2 D Dx Dy : Nat}
 
 /-! ## `jnp.take` index resolution -/
 
@@ -99,4 +108,493 @@ theorem C12_measure_slice (be : Backend ℝ) (m : MeasureB R D ℝ) (hcls : m.cl
       simp only [reindexM, MeasureB.mk0, hc, hll, hmu, hz, take_eq _ idx _ h, Option.map_some, reindexCov]
       rfl
 
+
+/-! ## layouts -/
+
+theorem unflatL_flat {a b : Nat} (i : Fin a) (j : Fin b) : unflatL (flat i j) = i := by
+  apply Fin.ext
+  simp only [unflatL, flat]
+  have hb : 0 < b := Fin.pos j
+  rw [Nat.add_comm, Nat.add_mul_div_right _ _ hb, Nat.div_eq_of_lt j.2, Nat.zero_add]
+
+theorem unflatR_flat {a b : Nat} (i : Fin a) (j : Fin b) : unflatR (flat i j) = j := by
+  apply Fin.ext
+  simp only [unflatR, flat]
+  rw [Nat.add_comm, Nat.add_mul_mod_self_right, Nat.mod_eq_of_lt j.2]
+
+/-! ## inversion of a batch is component-wise -/
+
+theorem invertBatch_reindex (be : Backend ℝ) (d : Bool) (A : Arr R (Mat D D ℝ)) (g : Fin N → Fin R) :
+    invertBatch be d (tab fun n => A (g n)) =
+      (tab fun n => (invertBatch be d A).1 (g n), tab fun n => (invertBatch be d A).2 (g n)) := by
+  simp only [invertBatch, tab_apply]
+
+/-! ## the generic product is natural in the result index and in the operands -/
+
+theorem productSel_reindex_out (be : Backend ℝ) (g : Fin N → Fin Ro) (su : Fin Ro → Fin R1)
+    (sf : Fin Ro → Fin R2) (u : MeasureB R1 D ℝ) (f : Factor R2 D ℝ) (uf : Bool) :
+    productSel be (su ∘ g) (sf ∘ g) u f uf = reindexM g (productSel be su sf u f uf) := by
+  cases f <;> cases uf <;> cases hc : u.cov <;>
+    simp only [productSel, finishInvert, finishCov, invertBatch, reindexM, reindexCov, MeasureB.mk0, hc,
+      Function.comp_apply, tab_apply, Option.map_some, Option.map_none, if_true, if_false,
+      Bool.false_eq_true]
+
+
+theorem productSel_reindex_in {Ru Rf : Nat} (be : Backend ℝ) (su : Fin Ro → Fin R1) (sf : Fin Ro → Fin R2)
+    (gu : Fin R1 → Fin Ru) (gf : Fin R2 → Fin Rf)
+    (u : MeasureB Ru D ℝ) (f : Factor Rf D ℝ) (uf : Bool) :
+    productSel be su sf (reindexM gu u) (reindexF gf f) uf = productSel be (gu ∘ su) (gf ∘ sf) u f uf := by
+  cases f <;> cases uf <;> cases hc : u.cov <;>
+    simp only [productSel, finishInvert, finishCov, invertBatch, reindexM, reindexF, reindexCov,
+      MeasureB.mk0, hc, oneRankLambda, Function.comp_apply, tab_apply,
+      Option.map_some, Option.map_none, if_true, if_false, Bool.false_eq_true]
+
+/-- **C12 for `multiply`**: slicing both operands (components `gu` of the measure, `gf` of the
+factor) gives the slice of the product at the indices `gu i * R2 + gf j` — for all four factor
+classes, both `update_full` flags, cached covariance or not. -/
+theorem C12_multiply_slice (be : Backend ℝ) (gu : Fin N1 → Fin R1) (gf : Fin N2 → Fin R2)
+    (u : MeasureB R1 D ℝ) (f : Factor R2 D ℝ) (uf : Bool) :
+    (reindexM gu u).multiply be (reindexF gf f) uf =
+      reindexM (fun k => flat (gu (unflatL k)) (gf (unflatR k))) (u.multiply be f uf) := by
+  unfold MeasureB.multiply
+  rw [productSel_reindex_in, ← productSel_reindex_out]
+  congr 1 <;> funext k <;> simp only [Function.comp_apply, unflatL_flat, unflatR_flat]
+
+/-- component `k` of a product only depends on component `k / R2` of the measure and `k % R2`
+of the factor: two products whose operands agree on these components agree in component `k`. -/
+theorem C12_multiply_component (be : Backend ℝ) (u : MeasureB R1 D ℝ) (f : Factor R2 D ℝ) (uf : Bool)
+    (i : Fin R1) (j : Fin R2) :
+    reindexM (fun _ : Fin 1 => flat i j) (u.multiply be f uf) =
+      productSel be (fun _ => (0 : Fin 1)) (fun _ => (0 : Fin 1))
+        (reindexM (fun _ : Fin 1 => i) u) (reindexF (fun _ : Fin 1 => j) f) uf := by
+  unfold MeasureB.multiply
+  rw [productSel_reindex_in, ← productSel_reindex_out]
+  congr 1 <;> funext k <;> simp only [Function.comp_apply, unflatL_flat, unflatR_flat]
+
+theorem C12_hadamard_slice (be : Backend ℝ) (g : Fin N → Fin R)
+    (u : MeasureB R D ℝ) (f : Factor R D ℝ) (uf : Bool) :
+    (reindexM g u).hadamard be (reindexF g f) uf = reindexM g (u.hadamard be f uf) := by
+  unfold MeasureB.hadamard
+  rw [productSel_reindex_in, ← productSel_reindex_out]
+  rfl
+
+/-- single-component factor broadcast over the batch: the result follows the batch index of the
+measure -/
+theorem C12_hadamardBF_slice (be : Backend ℝ) (g : Fin N → Fin R)
+    (u : MeasureB R D ℝ) (f : Factor 1 D ℝ) (uf : Bool) :
+    (reindexM g u).hadamardBF be f uf = reindexM g (u.hadamardBF be f uf) := by
+  unfold MeasureB.hadamardBF
+  have hf : f = reindexF (id : Fin 1 → Fin 1) f := by
+    cases f <;> simp only [reindexF, id, Arr.ofFn_get]
+  conv_lhs => rw [hf]
+  rw [productSel_reindex_in, ← productSel_reindex_out]
+  rfl
+
+/-- single-component measure broadcast over the batch of the factor -/
+theorem C12_hadamardBU_slice (be : Backend ℝ) (g : Fin N → Fin R)
+    (u : MeasureB 1 D ℝ) (f : Factor R D ℝ) (uf : Bool) :
+    u.hadamardBU be (reindexF g f) uf = reindexM g (u.hadamardBU be f uf) := by
+  unfold MeasureB.hadamardBU
+  rw [← productSel_reindex_out]
+  have h := productSel_reindex_in be (fun _ : Fin N => (0 : Fin 1)) (id : Fin N → Fin N)
+    (id : Fin 1 → Fin 1) g u f uf
+  -- `productSel` never reads the `mu` / `lnZ` caches of the measure, so `reindexM id u` may
+  -- replace `u`
+  have hu : productSel be (fun _ : Fin N => (0 : Fin 1)) (id : Fin N → Fin N) (reindexM id u)
+      (reindexF g f) uf = productSel be (fun _ : Fin N => (0 : Fin 1)) id u (reindexF g f) uf := by
+    rcases u with ⟨cls, L, nu, lb, cov, ldl, mu, lnZ⟩
+    cases f <;> cases uf <;> cases cov <;>
+      simp only [productSel, finishInvert, finishCov, invertBatch, reindexM, reindexF, reindexCov,
+        MeasureB.mk0, oneRankLambda, id, tab_apply,
+        Option.map_some, Option.map_none, if_true, if_false, Bool.false_eq_true]
+  rw [← hu, h]
+  rfl
+
+
+/-! ## cache filling is component-wise -/
+
+section caches
+variable (be : Backend ℝ) (g : Fin N → Fin R) (m : MeasureB R D ℝ)
+
+theorem invertLambda_reindex :
+    (reindexM g m).invertLambda be =
+      (reindexM g (m.invertLambda be).1, reindexCov g (m.invertLambda be).2) := by
+  simp only [MeasureB.invertLambda, invertBatch, reindexM, reindexCov, tab_apply, Option.map_some]
+
+theorem ensureCov_reindex :
+    (reindexM g m).ensureCov be = (reindexM g (m.ensureCov be).1, reindexCov g (m.ensureCov be).2) := by
+  cases hc : m.cov with
+  | some c =>
+    have h1 : (reindexM g m).cov = some (reindexCov g c) := by simp only [reindexM, hc, Option.map_some]
+    simp only [MeasureB.ensureCov, hc, h1]
+  | none =>
+    have h1 : (reindexM g m).cov = none := by simp only [reindexM, hc, Option.map_none]
+    simp only [MeasureB.ensureCov, hc, h1, invertLambda_reindex]
+
+theorem computeLnZ_reindex :
+    (reindexM g m).computeLnZ be =
+      (reindexM g (m.computeLnZ be).1, tab fun n => (m.computeLnZ be).2 (g n)) := by
+  simp only [MeasureB.computeLnZ, ensureCov_reindex]
+  simp only [reindexM, reindexCov, tab_apply, Option.map_some]
+
+theorem computeMu_reindex :
+    (reindexM g m).computeMu be =
+      (reindexM g (m.computeMu be).1, tab fun n => (m.computeMu be).2 (g n)) := by
+  simp only [MeasureB.computeMu, ensureCov_reindex]
+  simp only [reindexM, reindexCov, tab_apply, Option.map_some]
+
+theorem ensureLnZ_reindex : (reindexM g m).ensureLnZ be = reindexM g (m.ensureLnZ be) := by
+  cases hz : m.lnZ with
+  | some z =>
+    have h1 : (reindexM g m).lnZ = some (tab fun n => z (g n)) := by
+      simp only [reindexM, hz, Option.map_some]
+    simp only [MeasureB.ensureLnZ, hz, h1]
+  | none =>
+    have h1 : (reindexM g m).lnZ = none := by simp only [reindexM, hz, Option.map_none]
+    simp only [MeasureB.ensureLnZ, hz, h1, computeLnZ_reindex]
+
+theorem ensureMu_reindex : (reindexM g m).ensureMu be = reindexM g (m.ensureMu be) := by
+  cases hz : m.mu with
+  | some z =>
+    have h1 : (reindexM g m).mu = some (tab fun n => z (g n)) := by
+      simp only [reindexM, hz, Option.map_some]
+    simp only [MeasureB.ensureMu, hz, h1]
+  | none =>
+    have h1 : (reindexM g m).mu = none := by simp only [reindexM, hz, Option.map_none]
+    simp only [MeasureB.ensureMu, hz, h1, computeMu_reindex]
+
+/-- `_prepare_integration` of a slice = slice of the prepared object -/
+theorem prepare_reindex : (reindexM g m).prepare be = reindexM g (m.prepare be) := by
+  simp only [MeasureB.prepare, ensureLnZ_reindex, ensureMu_reindex]
+
+theorem normalize_reindex : (reindexM g m).normalize be = reindexM g (m.normalize be) := by
+  simp only [MeasureB.normalize, computeLnZ_reindex]
+  simp only [reindexM, tab_apply]
+
+end caches
+
+
+/-! ## the density constructor is component-wise -/
+
+theorem pdfPrecision_reindex (be : Backend ℝ) (diag : Bool) (g : Fin N → Fin R) (S : Arr R (Mat D D ℝ))
+    (L : Option (Arr R (Mat D D ℝ))) (ld : Option (Arr R ℝ)) :
+    pdfPrecision be diag (tab fun n => S (g n)) (L.map fun L => tab fun n => L (g n))
+        (ld.map fun l => tab fun n => l (g n)) =
+      (tab fun n => (pdfPrecision be diag S L ld).1 (g n),
+       tab fun n => (pdfPrecision be diag S L ld).2 (g n)) := by
+  cases L <;> cases ld <;>
+    simp only [pdfPrecision, invertBatch, Option.map_some, Option.map_none, tab_apply]
+
+theorem pdfPre_reindex (diag : Bool) (g : Fin N → Fin R) (S : Arr R (Mat D D ℝ)) (mu : Arr R (Vec D ℝ))
+    (Lam : Arr R (Mat D D ℝ)) (ld : Arr R ℝ) :
+    pdfPre diag (tab fun n => S (g n)) (tab fun n => mu (g n)) (tab fun n => Lam (g n))
+        (tab fun n => ld (g n)) = reindexM g (pdfPre diag S mu Lam ld) := by
+  simp only [pdfPre, reindexM, reindexCov, tab_apply, Option.map_some, Option.map_none]
+
+/-- **C12 for the density constructor** (`GaussianPDF(Sigma, mu, Lambda, ln_det_Sigma)` and the
+diagonal class): constructing from sliced arguments = slicing the constructed density, all caches
+(`Sigma`, `ln_det_Sigma`, `mu`, `lnZ`, `ln_beta`) included. -/
+theorem mkPdf_reindex (be : Backend ℝ) (diag : Bool) (g : Fin N → Fin R) (S : Arr R (Mat D D ℝ))
+    (mu : Arr R (Vec D ℝ)) (L : Option (Arr R (Mat D D ℝ))) (ld : Option (Arr R ℝ)) :
+    mkPdf be diag (tab fun n => S (g n)) (tab fun n => mu (g n)) (L.map fun L => tab fun n => L (g n))
+        (ld.map fun l => tab fun n => l (g n)) = reindexM g (mkPdf be diag S mu L ld) := by
+  simp only [mkPdf, pdfPrecision_reindex, pdfPre_reindex, prepare_reindex, normalize_reindex]
+
+/-! ## conditionals -/
+
+section defs
+variable {α : Type}
+
+def reindexC (g : Fin N → Fin R) (c : CondB R Dy Dx α) : CondB N Dy Dx α :=
+  ⟨c.diag, tab fun n => c.M (g n), tab fun n => c.b (g n), tab fun n => c.Sigma (g n),
+   tab fun n => c.Lambda (g n), tab fun n => c.lnDetSigma (g n)⟩
+
+def reindexCI (g : Fin N → Fin R) (c : CondIdB R D α) : CondIdB N D α :=
+  ⟨c.diag, tab fun n => c.Sigma (g n), tab fun n => c.Lambda (g n), tab fun n => c.lnDetSigma (g n)⟩
+
+def reindexP (g : Fin N → Fin R) (p : PdfV R D α) : PdfV N D α :=
+  ⟨p.diag, tab fun n => p.Lambda (g n), tab fun n => p.nu (g n), tab fun n => p.lnBeta (g n),
+   tab fun n => p.Sigma (g n), tab fun n => p.lnDetSigma (g n), tab fun n => p.mu (g n),
+   tab fun n => p.lnZ (g n)⟩
+end defs
+
+/-- slice of a conditional with in-range indices (the class flag of the result is the full class) -/
+theorem C12_cond_slice (c : CondB R Dy Dx ℝ) (idx : Fin N → Int)
+    (h : ∀ n, -(R : Int) ≤ idx n ∧ idx n < R) :
+    c.slice idx = { reindexC (fun n => resolve R (idx n) (h n)) c with diag := false } := by
+  simp only [CondB.slice, reindexC, take_eq _ idx _ h]
+
+/-- **C12 for `condition_on_x`**: component `r*N+n` of the result only depends on conditional
+`r` and point `n`. -/
+theorem C12_condition_on_x {Nx : Nat} (be : Backend ℝ) (c : CondB R Dy Dx ℝ) (xs : Arr Nx (Vec Dx ℝ))
+    (gr : Fin N1 → Fin R) (gn : Fin N2 → Fin Nx) :
+    reindexM (fun k => flat (gr (unflatL k)) (gn (unflatR k))) (c.conditionOnX be xs) =
+      (reindexC gr c).conditionOnX be (tab fun n => xs (gn n)) := by
+  unfold CondB.conditionOnX
+  rw [← mkPdf_reindex]
+  simp only [reindexC, CondB.condMu, Option.map_some, tab_apply, unflatL_flat, unflatR_flat]
+
+theorem C12_condition_on_x_id {Nx : Nat} (be : Backend ℝ) (c : CondIdB R D ℝ) (xs : Arr Nx (Vec D ℝ))
+    (gr : Fin N1 → Fin R) (gn : Fin N2 → Fin Nx) :
+    reindexM (fun k => flat (gr (unflatL k)) (gn (unflatR k))) (c.conditionOnX be xs) =
+      (reindexCI gr c).conditionOnX be (tab fun n => xs (gn n)) := by
+  unfold CondIdB.conditionOnX
+  rw [← mkPdf_reindex]
+  simp only [reindexCI, Option.map_some, tab_apply, unflatL_flat, unflatR_flat]
+
+/-- **C12 for `affine_marginal_transformation`**, layout `k ↦ (k / Rx, k % Rx)` -/
+theorem C12_affine_marginal {Rc Rx : Nat} (be : Backend ℝ) (c : CondB Rc Dy Dx ℝ) (p : PdfV Rx Dx ℝ)
+    (gc : Fin N1 → Fin Rc) (gx : Fin N2 → Fin Rx) :
+    reindexM (fun k => flat (gc (unflatL k)) (gx (unflatR k))) (c.affineMarginal be p) =
+      (reindexC gc c).affineMarginal be (reindexP gx p) := by
+  unfold CondB.affineMarginal
+  have h := mkPdf_reindex be false (fun k : Fin (N1 * N2) => flat (gc (unflatL k)) (gx (unflatR k)))
+    (tab fun k => madd (c.Sigma (unflatL k))
+      (mmul (mmul (c.M (unflatL k)) (p.Sigma (unflatR k))) (transpose (c.M (unflatL k)))))
+    (tab fun k => c.condMu (unflatL k) (p.mu (unflatR k))) none none
+  rw [← h]
+  simp only [reindexC, reindexP, CondB.condMu, Option.map_none, tab_apply, unflatL_flat, unflatR_flat]
+
+theorem C12_affine_marginal_id {Rc Rx : Nat} (be : Backend ℝ) (c : CondIdB Rc D ℝ) (p : PdfV Rx D ℝ)
+    (gc : Fin N1 → Fin Rc) (gx : Fin N2 → Fin Rx) :
+    reindexM (fun k => flat (gc (unflatL k)) (gx (unflatR k))) (c.affineMarginal be p) =
+      (reindexCI gc c).affineMarginal be (reindexP gx p) := by
+  unfold CondIdB.affineMarginal
+  have h := mkPdf_reindex be false (fun k : Fin (N1 * N2) => flat (gc (unflatL k)) (gx (unflatR k)))
+    (tab fun k => madd (c.Sigma (unflatL k)) (p.Sigma (unflatR k)))
+    (tab fun k => p.mu (unflatR k)) none none
+  rw [← h]
+  simp only [reindexCI, reindexP, Option.map_none, tab_apply, unflatL_flat, unflatR_flat]
+
+/-- **C12 for `affine_joint_transformation`** -/
+theorem C12_affine_joint {Rc Rx : Nat} (be : Backend ℝ) (c : CondB Rc Dy Dx ℝ) (p : PdfV Rx Dx ℝ)
+    (gc : Fin N1 → Fin Rc) (gx : Fin N2 → Fin Rx) :
+    reindexM (fun k => flat (gc (unflatL k)) (gx (unflatR k))) (c.affineJoint be p) =
+      (reindexC gc c).affineJoint be (reindexP gx p) := by
+  unfold CondB.affineJoint
+  rw [← mkPdf_reindex]
+  simp only [reindexC, reindexP, CondB.condMu, Option.map_some, tab_apply, unflatL_flat, unflatR_flat]
+
+theorem C12_affine_joint_id {Rc Rx : Nat} (be : Backend ℝ) (c : CondIdB Rc D ℝ) (p : PdfV Rx D ℝ)
+    (gc : Fin N1 → Fin Rc) (gx : Fin N2 → Fin Rx) :
+    reindexM (fun k => flat (gc (unflatL k)) (gx (unflatR k))) (c.affineJoint be p) =
+      (reindexCI gc c).affineJoint be (reindexP gx p) := by
+  unfold CondIdB.affineJoint
+  rw [← mkPdf_reindex]
+  simp only [reindexCI, reindexP, Option.map_some, tab_apply, unflatL_flat, unflatR_flat]
+
+/-- **C12 for `affine_conditional_transformation`** (the result is a conditional) -/
+theorem C12_affine_conditional {Rc Rx : Nat} (be : Backend ℝ) (c : CondB Rc Dy Dx ℝ) (p : PdfV Rx Dx ℝ)
+    (gc : Fin N1 → Fin Rc) (gx : Fin N2 → Fin Rx) :
+    reindexC (fun k => flat (gc (unflatL k)) (gx (unflatR k))) (c.affineConditional be p) =
+      (reindexC gc c).affineConditional be (reindexP gx p) := by
+  simp only [CondB.affineConditional, invertBatch, reindexC, reindexP, tab_apply, unflatL_flat,
+    unflatR_flat, if_false, Bool.false_eq_true]
+
+theorem C12_affine_conditional_id {Rc Rx : Nat} (be : Backend ℝ) (c : CondIdB Rc D ℝ) (p : PdfV Rx D ℝ)
+    (gc : Fin N1 → Fin Rc) (gx : Fin N2 → Fin Rx) :
+    reindexC (fun k => flat (gc (unflatL k)) (gx (unflatR k))) (c.affineConditional be p) =
+      (reindexCI gc c).affineConditional be (reindexP gx p) := by
+  simp only [CondIdB.affineConditional, invertBatch, reindexC, reindexCI, reindexP, tab_apply,
+    unflatL_flat, unflatR_flat, if_false, Bool.false_eq_true]
+
+/-- **C12 for `set_y`**: the factor for observation `n` only reads conditional `sc n` … -/
+theorem C12_set_y_cond (g : Fin R1 → Fin R) (sc : Fin N → Fin R1) (c : CondB R Dy Dx ℝ)
+    (y : Arr N (Vec Dy ℝ)) :
+    (reindexC g c).setYSel sc y = c.setYSel (g ∘ sc) y := by
+  simp only [CondB.setYSel, reindexC, tab_apply, Function.comp_apply]
+
+/-- … and observation `n`: slicing the result = slicing the observations (and the selector) -/
+theorem C12_set_y_slice (h : Fin N1 → Fin N) (sc : Fin N → Fin R) (c : CondB R Dy Dx ℝ)
+    (y : Arr N (Vec Dy ℝ)) :
+    reindexF h (c.setYSel sc y) = c.setYSel (sc ∘ h) (tab fun n => y (h n)) := by
+  simp only [CondB.setYSel, reindexF, tab_apply, Function.comp_apply]
+
+theorem C12_set_y_cond_id (g : Fin R1 → Fin R) (sc : Fin N → Fin R1) (c : CondIdB R D ℝ)
+    (y : Arr N (Vec D ℝ)) :
+    (reindexCI g c).setYSel sc y = c.setYSel (g ∘ sc) y := by
+  simp only [CondIdB.setYSel, reindexCI, tab_apply, Function.comp_apply]
+
+theorem C12_set_y_slice_id (h : Fin N1 → Fin N) (sc : Fin N → Fin R) (c : CondIdB R D ℝ)
+    (y : Arr N (Vec D ℝ)) :
+    reindexF h (c.setYSel sc y) = c.setYSel (sc ∘ h) (tab fun n => y (h n)) := by
+  simp only [CondIdB.setYSel, reindexF, tab_apply, Function.comp_apply]
+
+
+/-! ## further operations of measures and densities -/
+
+theorem lnZOr0_reindex (g : Fin N → Fin R) (m : MeasureB R D ℝ) :
+    (reindexM g m).lnZOr0 = tab fun n => m.lnZOr0 (g n) := by
+  cases hz : m.lnZ <;>
+    simp only [MeasureB.lnZOr0, reindexM, hz, Option.map_some, Option.map_none, tab_apply]
+
+/-- `log_integral` -/
+theorem C12_log_integral (be : Backend ℝ) (g : Fin N → Fin R) (m : MeasureB R D ℝ) :
+    (reindexM g m).logIntegral be =
+      (reindexM g (m.logIntegral be).1, tab fun n => (m.logIntegral be).2 (g n)) := by
+  simp only [MeasureB.logIntegral, MeasureB.lnZPlusLnBeta, prepare_reindex, lnZOr0_reindex, tab_apply]
+  simp only [reindexM, tab_apply]
+
+/-- `integral` -/
+theorem C12_integral (be : Backend ℝ) (g : Fin N → Fin R) (m : MeasureB R D ℝ) :
+    (reindexM g m).integral be =
+      (reindexM g (m.integral be).1, tab fun n => (m.integral be).2 (g n)) := by
+  simp only [MeasureB.integral, C12_log_integral, tab_apply]
+
+/-- `log_integral_light` -/
+theorem C12_log_integral_light (be : Backend ℝ) (g : Fin N → Fin R) (m : MeasureB R D ℝ) :
+    (reindexM g m).logIntegralLight be =
+      (reindexM g (m.logIntegralLight be).1, tab fun n => (m.logIntegralLight be).2 (g n)) := by
+  simp only [MeasureB.logIntegralLight, MeasureB.lnZPlusLnBeta, ensureLnZ_reindex, lnZOr0_reindex,
+    tab_apply]
+  simp only [reindexM, tab_apply]
+
+/-- the density view of a slice is the slice of the density view -/
+theorem asPdf_reindex (g : Fin N → Fin R) (m : MeasureB R D ℝ) :
+    (reindexM g m).asPdf = m.asPdf.map (reindexP g) := by
+  cases hc : m.cov <;> cases hm : m.mu <;> cases hz : m.lnZ <;>
+    simp only [MeasureB.asPdf, reindexM, reindexP, reindexCov, hc, hm, hz, Option.map_some,
+      Option.map_none]
+
+/-- `get_density` -/
+theorem C12_get_density (be : Backend ℝ) (g : Fin N → Fin R) (m : MeasureB R D ℝ) :
+    (reindexM g m).getDensity be =
+      (reindexM g (m.getDensity be).1, reindexM g (m.getDensity be).2) := by
+  simp only [MeasureB.getDensity, prepare_reindex]
+  congr 1
+  generalize m.prepare be = m'
+  cases hc : m'.cov <;> cases hm : m'.mu <;>
+    simp only [MeasureB.densityOf, reindexM, hc, hm, Option.map_some, Option.map_none]
+  rename_i c mu
+  have h := mkPdf_reindex be false g c.Sigma mu (some m'.Lambda) (some c.lnDetSigma)
+  simp only [Option.map_some, reindexM] at h
+  simp only [reindexCov, h]
+
+/-- `get_marginal` -/
+theorem C12_get_marginal {K : Nat} (be : Backend ℝ) (g : Fin N → Fin R) (p : PdfV R D ℝ)
+    (dims : Fin K → Fin D) :
+    (reindexP g p).getMarginal be dims = reindexM g (p.getMarginal be dims) := by
+  unfold PdfV.getMarginal
+  have h := mkPdf_reindex be p.diag g (tab3 fun r i j => p.Sigma r (dims i) (dims j))
+    (tab2 fun r i => p.mu r (dims i)) none none
+  rw [← h]
+  simp only [reindexP, Option.map_none, tab_apply]
+
+/-- `entropy` -/
+theorem C12_entropy (g : Fin N → Fin R) (p : PdfV R D ℝ) :
+    (reindexP g p).entropy = tab fun n => p.entropy (g n) := by
+  simp only [PdfV.entropy, reindexP, tab_apply]
+
+/-- `kl_divergence` (with either broadcasting) -/
+theorem C12_kl {Rp Rq : Nat} (sp : Fin Ro → Fin R1) (sq : Fin Ro → Fin R2) (gp : Fin R1 → Fin Rp)
+    (gq : Fin R2 → Fin Rq) (h : Fin N → Fin Ro) (p : PdfV Rp D ℝ) (q : PdfV Rq D ℝ) :
+    (tab fun n => klSel sp sq (reindexP gp p) (reindexP gq q) (h n)) =
+      klSel (gp ∘ sp ∘ h) (gq ∘ sq ∘ h) p q := by
+  simp only [klSel, reindexP, tab_apply, Function.comp_apply]
+
+/-- `get_density_of_linear_sum` -/
+theorem C12_linear_sum {K : Nat} (be : Backend ℝ) (g : Fin N → Fin R) (p : PdfV R D ℝ)
+    (W : Arr R (Mat K D ℝ)) (b : Option (Arr R (Vec K ℝ))) :
+    (reindexP g p).linearSum be (tab fun n => W (g n)) (b.map fun b => tab fun n => b (g n)) =
+      reindexM g (p.linearSum be W b) := by
+  unfold PdfV.linearSum
+  cases b with
+  | none =>
+    have h := mkPdf_reindex be false g (tab fun r => mmul (mmul (W r) (p.Sigma r)) (transpose (W r)))
+      (tab fun r => mulVec (W r) (p.mu r)) none none
+    simp only [Option.map_none] at h ⊢
+    rw [← h]
+    simp only [reindexP, tab_apply]
+  | some b =>
+    have h := mkPdf_reindex be false g (tab fun r => mmul (mmul (W r) (p.Sigma r)) (transpose (W r)))
+      (tab fun r => vadd (mulVec (W r) (p.mu r)) (b r)) none none
+    simp only [Option.map_none, Option.map_some] at h ⊢
+    rw [← h]
+    simp only [reindexP, tab_apply]
+
+/-- `GaussianPDF.slice` / `GaussianDiagPDF.slice` with in-range indices: the result is the slice of
+the density re-constructed from the stored `(Sigma, mu, Lambda, ln_det_Sigma)` -/
+theorem C12_pdf_slice (be : Backend ℝ) (m : MeasureB R D ℝ) (hcls : m.cls.isPdf = true)
+    (c : Cov R D ℝ) (mu : Arr R (Vec D ℝ)) (hc : m.cov = some c) (hmu : m.mu = some mu)
+    (idx : Fin N → Int) (h : ∀ n, -(R : Int) ≤ idx n ∧ idx n < R) :
+    m.slice be idx = some (reindexM (fun n => resolve R (idx n) (h n))
+      (mkPdf be m.cls.isDiag c.Sigma mu (some m.Lambda) (some c.lnDetSigma))) := by
+  unfold MeasureB.slice
+  simp only [hcls, if_true, hc, hmu, take_eq _ idx _ h]
+  rw [← mkPdf_reindex]
+  rfl
+
+/-! ## the user-level statement for `multiply`: index arrays with repeated and negative entries -/
+
+/-- slicing the measure with `idxU` and the factor with `idxF` (in-range, possibly negative and
+repeated indices) and multiplying = slicing the product at positions `i*R2+j` -/
+theorem C12_multiply_take (be : Backend ℝ) (m : MeasureB R1 D ℝ) (f : Factor R2 D ℝ) (uf : Bool)
+    (hcls : m.cls.isPdf = false) (hmu : m.mu = none) (hz : m.lnZ = none)
+    (hl : m.cov.isSome → m.lnDetLambda.isSome) (hl' : m.cov = none → m.lnDetLambda = none)
+    (idxU : Fin N1 → Int) (hU : ∀ n, -(R1 : Int) ≤ idxU n ∧ idxU n < R1)
+    (idxF : Fin N2 → Int) (hF : ∀ n, -(R2 : Int) ≤ idxF n ∧ idxF n < R2) :
+    (m.slice be idxU).map (fun u' => u'.multiply be (f.slice idxF) uf) =
+      some (reindexM (fun k => flat (resolve R1 (idxU (unflatL k)) (hU _))
+          (resolve R2 (idxF (unflatR k)) (hF _))) (m.multiply be f uf)) := by
+  rw [C12_measure_slice be m hcls hmu hz hl hl' idxU hU, C12_factor_slice f idxF hF, Option.map_some,
+    C12_multiply_slice]
+
+/-- non-vacuity: two measure components, three factor components, index arrays `[-1, 0, -1]`
+(measure) and `[2, -3]` (factor): the six result components are the components
+`1*3+2, 1*3+0, 0*3+2, 0*3+0, 1*3+2, 1*3+0` of the full product. -/
+example (be : Backend ℝ) (uf : Bool) (L : Arr 2 (Mat 1 1 ℝ)) (nu : Arr 2 (Vec 1 ℝ)) (lb : Arr 2 ℝ)
+    (v : Arr 3 (Vec 1 ℝ)) (gg : Arr 3 ℝ) (nuf : Arr 3 (Vec 1 ℝ)) (lbf : Arr 3 ℝ) :
+    ((MeasureB.mk0 .measure L nu lb).slice be (fun n : Fin 3 => if n.1 = 1 then 0 else -1)).map
+        (fun u' => u'.multiply be
+          ((Factor.oneRank v gg nuf lbf).slice (fun n : Fin 2 => if n.1 = 0 then 2 else -3)) uf) =
+      some (reindexM (fun k : Fin (3 * 2) =>
+          flat (if (unflatL k : Fin 3).1 = 1 then (0 : Fin 2) else 1)
+               (if (unflatR k : Fin 2).1 = 0 then (2 : Fin 3) else 0))
+        ((MeasureB.mk0 .measure L nu lb).multiply be (Factor.oneRank v gg nuf lbf) uf)) := by
+  have hU : ∀ n : Fin 3, -((2 : Nat) : Int) ≤ (if n.1 = 1 then 0 else -1 : Int) ∧
+      (if n.1 = 1 then 0 else -1 : Int) < (2 : Nat) := by intro n; split <;> omega
+  have hF : ∀ n : Fin 2, -((3 : Nat) : Int) ≤ (if n.1 = 0 then 2 else -3 : Int) ∧
+      (if n.1 = 0 then 2 else -3 : Int) < (3 : Nat) := by intro n; split <;> omega
+  rw [C12_multiply_take be _ _ uf rfl rfl rfl (by intro h; cases h) (fun _ => rfl) _ hU _ hF]
+  congr 2
+  funext k
+  congr 1
+  · unfold resolve
+    split <;> rfl
+  · unfold resolve
+    split <;> rfl
+
 end GT.Props.C12
+
+#print axioms GT.Props.C12.invertBatch_reindex
+#print axioms GT.Props.C12.productSel_reindex_out
+#print axioms GT.Props.C12.productSel_reindex_in
+#print axioms GT.Props.C12.C12_multiply_slice
+#print axioms GT.Props.C12.C12_multiply_component
+#print axioms GT.Props.C12.C12_multiply_take
+#print axioms GT.Props.C12.C12_hadamard_slice
+#print axioms GT.Props.C12.C12_hadamardBF_slice
+#print axioms GT.Props.C12.C12_hadamardBU_slice
+#print axioms GT.Props.C12.mkPdf_reindex
+#print axioms GT.Props.C12.C12_pdf_slice
+#print axioms GT.Props.C12.C12_cond_slice
+#print axioms GT.Props.C12.C12_condition_on_x
+#print axioms GT.Props.C12.C12_condition_on_x_id
+#print axioms GT.Props.C12.C12_affine_marginal
+#print axioms GT.Props.C12.C12_affine_marginal_id
+#print axioms GT.Props.C12.C12_affine_joint
+#print axioms GT.Props.C12.C12_affine_joint_id
+#print axioms GT.Props.C12.C12_affine_conditional
+#print axioms GT.Props.C12.C12_affine_conditional_id
+#print axioms GT.Props.C12.C12_set_y_cond
+#print axioms GT.Props.C12.C12_set_y_slice
+#print axioms GT.Props.C12.C12_set_y_cond_id
+#print axioms GT.Props.C12.C12_set_y_slice_id
+#print axioms GT.Props.C12.C12_log_integral
+#print axioms GT.Props.C12.C12_integral
+#print axioms GT.Props.C12.C12_get_density
+#print axioms GT.Props.C12.C12_get_marginal
+#print axioms GT.Props.C12.C12_kl
+#print axioms GT.Props.C12.C12_linear_sum
+#print axioms GT.Props.C12.C12_factor_slice
+#print axioms GT.Props.C12.C12_measure_slice
